@@ -131,6 +131,11 @@ def atom_axioms(smt):
             out.append('(and (<= (- 1) %s) (<= %s 1))' % (d['sin'][0], d['sin'][0]))
         elif 'cos' in d:
             out.append('(and (<= (- 1) %s) (<= %s 1))' % (d['cos'][0], d['cos'][0]))
+        if 'tan' in d and 'cos' in d:
+            t, c = d['tan'][0], d['cos'][0]
+            out.append('(= (* (+ 1 (* %s %s)) (* %s %s)) 1)' % (t, t, c, c))
+            if 'sin' in d:
+                out.append('(= (* %s %s) %s)' % (t, c, d['sin'][0]))
         if 'sinh' in d and 'cosh' in d:
             s, c = d['sinh'][0], d['cosh'][0]
             out.append('(= (- (* %s %s) (* %s %s)) 1)' % (c, c, s, s))
@@ -140,6 +145,8 @@ def atom_axioms(smt):
             out.append('(and (< (- 1) %s) (< %s 1))' % (d['erf'][0], d['erf'][0]))
         if 'expit' in d:
             out.append('(and (< 0 %s) (< %s 1))' % (d['expit'][0], d['expit'][0]))
+            if 'exp' in d:
+                out.append('(= (* %s (+ 1 %s)) %s)' % (d['expit'][0], d['exp'][0], d['exp'][0]))
     return out
 
 
@@ -160,6 +167,8 @@ def _random_point(ctx, rng, tries=60):
         for nm in names:
             env[nm] = rng.choice([-1, 1]) * (0.2 + 1.6 * rng.random()) if t % 2 == 0 else (0.15 + 0.8 * rng.random())
         try:
+            for nm, fn in ctx.derived:
+                env[nm] = fn(env)
             val = E.evaluate(nodes, env)
             ok = all(eval_bool(b, val) for b in ctx.assumptions + ctx.path)
             ok = ok and all(abs(val[d.id]) > 1e-3 for d in ctx.divisors.values())
@@ -408,6 +417,14 @@ def validate_path(unit, ctx, res, rng):
     except (ValueError, ZeroDivisionError, OverflowError, KeyError) as e:
         res['validation_skipped'] += 1
         return
+    if getattr(ctx, 'fps', None) or getattr(fctx, 'fps', None):
+        if ctx.fps != fctx.fps:
+            for (la, va), (lb, vb) in zip(ctx.fps, fctx.fps):
+                if (la, va) != (lb, vb):
+                    res['validation_mismatch'].append('%s: structure differs between symbolic and float run: %s: %r vs %r' % (unit.name, la, va, vb))
+                    break
+            else:
+                res['validation_mismatch'].append('%s: structure fingerprints differ in length' % unit.name)
     fv = fctx.float_vals
     n = 0
     bad = 0
